@@ -98,6 +98,18 @@ FRS = (fractions.Fraction(1, 3), fractions.Fraction(-5, 2), fractions.Fraction(4
 DECS = (decimal.Decimal('1.5'), decimal.Decimal('-0.001'), decimal.Decimal('1E+3'))
 
 
+class IN1(PaneBase):
+    """explicit in_names, no out_name: written under the python name, which is always an input name"""
+    v: int = field(in_names=('vee',), default=0)
+    w: int = 0
+
+
+class IN2(PaneBase, in_rename='camel'):
+    """input style only: written under the python names"""
+    some_field: int = 0
+    other: Optional[P1] = None
+
+
 COND_FR = t.Annotated[fractions.Fraction, pane.val_range(min=0, max=1)]
 COND_DATE = t.Annotated[datetime.date, pane.Condition(lambda d: d.year >= 2000, 'this century')]
 COND_DEC = t.Annotated[decimal.Decimal, pane.Positive]
@@ -173,11 +185,22 @@ def native(kind, sel, i, j):
         return COND_DATE, pick2(DATES[:1] * 3, sel), None
     elif kind == 28:
         return t.List[COND_DEC], [decimal.Decimal('1.5')], None
-    else:
+    elif kind == 29:
         return COND_SET, {i, j, 5}, None
+    elif kind == 30:
+        return IN1, IN1.make_unchecked(v=i, w=j), None
+    elif kind == 31:
+        return t.List[IN2], [IN2.make_unchecked(some_field=i, other=P1.make_unchecked(a=j, b=1.0))], None
+    elif kind == 32:
+        # an alias whose union members are in the OTHER order was used just before: must not matter
+        pane.convert([1.5, 2], list[t.Union[float, int]])
+        return list[t.Union[int, float]], [i, 2.5, j], None
+    else:
+        pane.convert({'k': 1}, dict[str, t.Union[int, str]])
+        return dict[str, t.Union[str, int]], {'k': i, 'q': 's'}, None
 
 
-for _k in range(30):
+for _k in range(34):
     for _s in range(3):
         try:
             (_T, _x, _f) = native(_k, _s, 1, 0)
@@ -211,8 +234,8 @@ def body_native_{lo}(kind: int, sel: int, i: int, j: int) -> int:
             return r
     return 0
 '''
-for _lo in range(0, 30, 2):
-    exec(_NAT.format(lo=_lo, hi=min(_lo + 1, 29)))
+for _lo in range(0, 34, 2):
+    exec(_NAT.format(lo=_lo, hi=min(_lo + 1, 33)))
 
 
 @obligation(pre="0 <= which <= 2 and 0 <= e <= 1", witnesses=(0,), timeout=120)
